@@ -697,6 +697,10 @@ HAND = [
     'struct s { int a; long b; }; struct s g(struct s x){ return x; } int f(void){ struct s v = {1, 2}; return g(v).a; }\n',
     'int f(int n){ int a[n]; a[0] = 1; return sizeof a + a[0]; }\n',
     'int f(int y){ l: if (y--) goto l; return y; }\n',
+    # size of a VLA typedef: evaluated at the typedef (fixed f40627e: was the first use, possibly inside a branch)
+    'void g(int *); void f(int n, int c) { typedef int T[n]; if (c) { T a; g(a); } T b; g(b); }\n',
+    'void g(void *); void f(int n, int c) { typedef int T[n][n + 1]; while (c--) { T a; g(a); } for (;;) { T *p = 0; g(p + 1); break; } T b; g(b); }\n',
+    'long f(int n, int c) { typedef char T[n]; switch (c) { case 1: { T a; return sizeof a; } default: ; } return sizeof(T); }\n',
     'int printf(const char *, ...); int f(void){ return printf("%d %f\\n", 1, 2.0); }\n',
     'void f(void){ static int x = 3; static char s[] = "abc"; x += s[1]; }\n',
     'int f(int a, int b){ return a ?: b; }\n' if False else 'int f(int a, int b){ return a ? a : b; }\n',
